@@ -2,7 +2,7 @@
 import copy
 import random
 
-from ..engines import delegation, envelope, rootchain, threads
+from ..engines import delegation, envelope, hostile, rootchain, threads
 from . import c03
 from ..gen import entries as gentries, keys as gkeys, metadata as gmd
 from ..monitors import boundary
@@ -123,7 +123,10 @@ def run_confusion(spec, rec, lib):
         elif shape == "big_version":
             usigned["version"] = rng.choice([2**64, 2**1024, 10**400])
         elif shape == "odd_spec_version":
-            usigned["metadata_spec_version"] = rng.choice(["", "99.0.0", "not-a-version", "1.0.0", "2.0.0-\u00e9", "1.0.0\ud800", "\U0001f600.0.0", "1"])
+            usigned["metadata_spec_version"] = rng.choice(["", "99.0.0", "not-a-version", "1.0.0", "2.0.0-\u00e9", "1.0.0\ud800", "\U0001f600.0.0", "1",
+                                                           # never seen before in this process
+                                                           "%d.%d.%d" % (rng.randrange(1, 10**6), rng.randrange(100), rng.randrange(100)),
+                                                           "0.6.%d" % rng.randrange(1, 10**9), "0.%d.0" % rng.randrange(7, 10**9)])
         rec.hist("confusion_shape", shape)
         untrusted = gmd.envelope(usigned)
         data = canonjson.canon(usigned)
@@ -132,6 +135,15 @@ def run_confusion(spec, rec, lib):
             u2 = {"signatures": manipulate(untrusted["signatures"], how, rng, gpg, data, usigned), "signed": copy.deepcopy(usigned)}
             case = {"kind": "deleg", "role": Y, "untrusted": u2, "trusted": trusted, "gpg": gpg, "stratum": "confusion:" + how,
                     "ukind": "delegating"}
+            if how == "none" and i % 2 == 0:
+                # first contact of this process with this document happens while standard output fails
+                c0 = dict(case, stdout=hostile.MODES[i // 2 % len(hostile.MODES)], stratum=case["stratum"] + "+stdout-fails-first")
+                m0, f0, o0, _ = delegation.evaluate(c0, lib)
+                rec.count("failing_stdout_runs")
+                rec.count("failing_stdout_write_attempts", c0.get("_stdout_write_attempts", 0))
+                if o0.accepted:
+                    rec.violation("type-confusion/verify_delegation/accepted-as-other-role/stdout-fails/manip=" + how,
+                                  "metadata declaring type %r accepted as role %r when standard output fails (%s)" % (X, Y, c0["stdout"]), c0)
             model, failed, out, _m = delegation.evaluate(case, lib)
             rec.case("confusion|%s|%s|%s|%d|%d|%s|%s" % (how, gpg, X, len(ks), t, X in dels, "timestamp" in usigned))
             rec.hist("manipulation", how)
@@ -145,6 +157,16 @@ def run_confusion(spec, rec, lib):
                               case)
             elif out.family != "MetadataVerificationError":
                 rec.count("confusion_rejected_with_other_family:" + str(out.family))
+            if how in ("none", MANIPS[(i + 1) % len(MANIPS)]):
+                # the same offer in a process whose standard output fails (closed, full, broken pipe, binary, cannot
+                # encode): a diagnostic print that raises inside the checker must not switch the type test off
+                c3 = dict(case, stdout=hostile.MODES[(i + len(how)) % len(hostile.MODES)], stratum=case["stratum"] + "+stdout-fails")
+                m3, f3, o3, _ = delegation.evaluate(c3, lib)
+                rec.count("failing_stdout_runs")
+                rec.count("failing_stdout_write_attempts", c3.get("_stdout_write_attempts", 0))
+                if o3.accepted:
+                    rec.violation("type-confusion/verify_delegation/accepted-as-other-role/stdout-fails/manip=" + how,
+                                  "metadata declaring type %r accepted as role %r when standard output fails (%s)" % (X, Y, c3["stdout"]), c3)
             # control: presented for its own type X it must be accepted when X is delegated (so the signatures are good)
             if how == "none" and X in dels:
                 c2 = dict(case, role=X)
